@@ -6,7 +6,11 @@ import "time"
 // wide margin (z3's :timeout is not honoured inside every tactic). The read
 // then fails, readResult restarts the process and the caller sees "unknown".
 func (s *Solver) watchdog() *time.Timer {
-	d := time.Duration(s.timeout)*time.Millisecond + 15*time.Second
+	ms := s.timeout
+	if s.cur > ms {
+		ms = s.cur
+	}
+	d := time.Duration(ms)*time.Millisecond + 15*time.Second
 	cmd := s.cmd
 	return time.AfterFunc(d, func() {
 		if cmd != nil && cmd.Process != nil {
